@@ -335,7 +335,11 @@ func famMeta(sh *Shards, n int, stats map[string]int) error {
 		{[4]float32{1, 0, 0.984375, 1}}, {[4]float32{0, 1, 1, 0.984375}}, {[4]float32{0, 0, inf, 1}}, {[4]float32{-inf, 0, 1, 1}},
 		{[4]float32{0, nan, 1, 1}}, {[4]float32{0, 0, 1, nan}}, {[4]float32{nan, 0, 1, 1}}, {[4]float32{0, 0, nan, 1}},
 		{[4]float32{float32(math.Copysign(0, -1)), 0, 0, 0}}, {[4]float32{-1000.5, -3e10, 2000.25, 3e10}}, {[4]float32{0, 0, 0, -inf}},
-		{[4]float32{1e-40, 0, 1e-39, 1}}, {[4]float32{63, 63, -64, 63}}}
+		{[4]float32{1e-40, 0, 1e-39, 1}}, {[4]float32{63, 63, -64, 63}},
+		// finite and ordered, but the extent max - min is not a finite float32
+		{[4]float32{-3e38, -1, 3e38, 1}}, {[4]float32{0, -3.4e38, 1, 3.4e38}},
+		{[4]float32{-math.MaxFloat32, -math.MaxFloat32, math.MaxFloat32, math.MaxFloat32}},
+		{[4]float32{3e38, -3e38, 3.4e38, -2e38}}, {[4]float32{-1e-45, -1e-45, 1e-45, 1e-45}}}
 	vbChunk := func(v [4]float32, ws [4]int, lenDelta int, lenWidth int) []byte {
 		body := []byte{0x00}
 		for i := 0; i < 4; i++ {
